@@ -121,10 +121,10 @@ func c07Families(tier fw.Tier) []c07Family {
 	tpre := docgen.TokenSpace{Alphabet: c07A12, MaxLen: 4}
 	return []c07Family{
 		{"A12", t12.Count(), t12.At, true},
-		// TRAIL: 1-3 records, 1-3 blank lines between them, 0-8 blank lines after the last one, LF / CRLF, every worker count
+		// TRAIL: 1-3 records, 1-3 blank lines between them, 0-30 blank lines after the last one, LF / CRLF, every worker count
 		// (blank lines at the end of a chunk and chunks that are blank altogether)
-		{"TRAIL", 3 * 2 * 3 * 9 * 2, func(i int) string {
-			d := docgen.Radix(i, 3, 2, 3, 9, 2)
+		{"TRAIL", 3 * 2 * 3 * 31 * 2, func(i int) string {
+			d := docgen.Radix(i, 3, 2, 3, 31, 2)
 			eol := []string{"\n", "\r\n"}[d[4]]
 			text := ""
 			for r := 0; r <= d[0]; r++ {
